@@ -108,13 +108,29 @@ def run_one(job):
                         cands.append(("suffix_exceptions", w[k:]))
                     if w[k].lower() in w[:k].lower():
                         cands.append(("prefix_exceptions", w[:k]))
+            import random
+
+            mode = job.get("derive_mode", "one")
+            opts = None
+            if mode != "one":
+                # a prefix and a suffix exception cut out of the same token: apart, adjacent, or overlapping
+                both = []
+                for w in sorted(vals):
+                    if len(w) >= 4 and w[:1].isalpha():
+                        for k in range(1, len(w)):
+                            for j in range(1, len(w)):
+                                if (mode == "both_overlap" and j < k) or (mode == "both" and j >= k):
+                                    both.append((w[:k], w[j:]))
+                if both:
+                    pre, suf = random.Random(path + rid + mode).choice(both)
+                    opts = {"prefix_exceptions": [pre], "suffix_exceptions": [suf], "case": random.Random(path).choice(["upper", "lower"])}
+                cands = cands if opts is None else [None]
             if not cands:
                 out["status"] = "no-derived-option"
                 return out
-            import random
-
-            a, v = random.Random(path + rid).choice(cands)
-            opts = {a: [v], "case": random.Random(path).choice(["upper", "lower"])}
+            if opts is None:
+                a, v = random.Random(path + rid).choice(cands)
+                opts = {a: [v], "case": random.Random(path).choice(["upper", "lower"])}
             with open(job["derive_cfg"], "w") as fh:
                 fh.write(yaml.safe_dump({"rule": {rid: opts}}))
             job["argv"] = list(job["argv"]) + ["-c", job["derive_cfg"]]
@@ -136,6 +152,14 @@ def run_one(job):
                 out["status"] = "rejected"
                 return out
             o.set_indent_map(oConfig.dIndent)
+            # the indent pass runs again before phase 4 of a fix run: on an unchanged list it must reproduce its own result
+            ind1 = [t.indent for t in o.lAllObjects]
+            o.set_indent_map(oConfig.dIndent)
+            ind2 = [t.indent for t in o.lAllObjects]
+            if ind1 != ind2:
+                k = next(k for k, (a, b) in enumerate(zip(ind1, ind2)) if a != b)
+                t = o.lAllObjects[k]
+                out["indent_pass_not_idempotent"] = {"index": k, "class": type(t).__module__.replace("vsg.", "") + "." + type(t).__name__, "value": t.get_value()[:60], "first": ind1[k], "second": ind2[k]}
             rl = rule_list.rule_list(o, oConfig.severity_list, None)
             try:
                 apply_rules.configure_rules(oConfig, rl, oConfig.dConfig, 0, path)
@@ -147,6 +171,20 @@ def run_one(job):
         out["exception"] = exc_text(e)
         return out
     out["lines_in"] = len(lines)
+    # what a plain check of the same input reports (C07: the report a user acts on vs. what --fix then does)
+    check_report = {}
+    try:
+        with contextlib.redirect_stdout(sink), contextlib.redirect_stderr(sink):
+            oC = vhdlFile.vhdlFile(list(lines), cla, path, err, oConfig)
+            oC.set_indent_map(oConfig.dIndent)
+            rlC = rule_list.rule_list(oC, oConfig.severity_list, None)
+            apply_rules.configure_rules(oConfig, rlC, oConfig.dConfig, 0, path)
+            rlC.check_rules(bAllPhases=True, lSkipPhase=cla.skip_phase)
+            check_report = {x.unique_id: sorted({v.get_line_number() for v in x.violations}) for x in rlC.rules if x.violations}
+            del oC, rlC
+    except BaseException:  # noqa
+        check_report = None
+    untouched = {"state": check_report is not None, "quiet": []}  # the token list is still the one the plain check saw
     tf = open(job["trace_path"], "w")
     tf.write("I " + ab.enc(o.lAllObjects) + "\n")
     cur = {"rule": None, "edits": None, "updates": 0}
@@ -184,6 +222,13 @@ def run_one(job):
                 changed = cur["updates"] > 0 or len(L2) != len(b_ids) or list(map(id, L2)) != b_ids or [t.value for t in L2] != b_vals
                 if len(L2) == len(b_ids) and cur["updates"] == 0 and [t.indent for t in L2] != b_ind and r.unique_id not in out.setdefault("indent_writers", []):
                     out["indent_writers"].append(r.unique_id)  # a rule that rewrites indent levels of tokens it does not replace
+                if untouched["state"]:
+                    rep = check_report.get(r.unique_id)
+                    if changed:
+                        untouched["state"] = False
+                        out["first_changer"] = {"rule": r.unique_id, "check_lines": rep or [], "fix_lines": sorted({ln for _, _, ln, _ in cur["edits"]})}
+                    elif rep and r.fixable and not r.disable and r.severity.type == severity.error_type:
+                        untouched["quiet"].append({"rule": r.unique_id, "check_lines": rep[:20]})
                 if changed:
                     cur["last_changer"] = r.unique_id
                     ed = cur["edits"]
@@ -234,12 +279,15 @@ def run_one(job):
         if self is o:
             tf.write("S 0 " + ab.enc(o.lAllObjects) + "\n")
             state["pre_norm"] = True
+            state["digest"] = ab.digest(o.lAllObjects)
         return orig_fbl(self)
 
     def utm(self):
         if self is o and state["pre_norm"]:
             state["pre_norm"] = False
             tf.write("S 1 " + ab.enc(o.lAllObjects) + "\n")
+            if state.get("digest") != ab.digest(o.lAllObjects):
+                untouched["state"] = False  # the normalisers changed the list
         return orig_utm(self)
 
     vcls.fix_blank_lines, vcls.update_token_map = fbl, utm
@@ -256,6 +304,7 @@ def run_one(job):
         tf.write("E " + ab.digest(o.lAllObjects) + "\n")
         tf.close()
     out["had_violations"] = bool(rl.had_violations)
+    out["quiet_reporters"] = untouched["quiet"][:30]
     if out["status"] != "ok":
         return out
     # ---- end-to-end facts
